@@ -18,3 +18,5 @@ mod c11_writer;
 mod c11_reader;
 #[cfg(kani)]
 mod prost_scalar;
+#[cfg(kani)]
+mod prost_more;
